@@ -33,6 +33,14 @@ theorem tie_h_hist_writer_close : Extracted.Hist.h_hist_writer_close = Canon.His
 theorem tie_h_hist_OpenOrCreateFile : Extracted.Hist.h_hist_OpenOrCreateFile = Canon.Hist.h_hist_OpenOrCreateFile := by decide +kernel
 theorem tie_h_hist_openFile : Extracted.Hist.h_hist_openFile = Canon.Hist.h_hist_openFile := by decide +kernel
 theorem tie_h_hist_createFile : Extracted.Hist.h_hist_createFile = Canon.Hist.h_hist_createFile := by decide +kernel
+theorem tie_h_fcache_Cache_LoadLatest : Extracted.Hist.h_fcache_Cache_LoadLatest = Canon.Hist.h_fcache_Cache_LoadLatest := by decide +kernel
+theorem tie_h_fcache_Cache_IsStale : Extracted.Hist.h_fcache_Cache_IsStale = Canon.Hist.h_fcache_Cache_IsStale := by decide +kernel
+theorem tie_h_fcache_Cache_Store : Extracted.Hist.h_fcache_Cache_Store = Canon.Hist.h_fcache_Cache_Store := by decide +kernel
+theorem tie_h_fcache_Cache_Entry : Extracted.Hist.h_fcache_Cache_Entry = Canon.Hist.h_fcache_Cache_Entry := by decide +kernel
+theorem tie_h_fcache_Cache_Invalidate : Extracted.Hist.h_fcache_Cache_Invalidate = Canon.Hist.h_fcache_Cache_Invalidate := by decide +kernel
+theorem tie_h_fcache_Cache_Load : Extracted.Hist.h_fcache_Cache_Load = Canon.Hist.h_fcache_Cache_Load := by decide +kernel
+theorem tie_h_fcache_Cache_evict : Extracted.Hist.h_fcache_Cache_evict = Canon.Hist.h_fcache_Cache_evict := by decide +kernel
+theorem tie_h_fcache__newEntry : Extracted.Hist.h_fcache__newEntry = Canon.Hist.h_fcache__newEntry := by decide +kernel
 theorem tie_dateFormat : Extracted.Hist.dateFormat = Canon.Hist.dateFormat := by decide +kernel
 theorem tie_dateTimeFormat : Extracted.Hist.dateTimeFormat = Canon.Hist.dateTimeFormat := by decide +kernel
 theorem tie_extDat : Extracted.Hist.extDat = Canon.Hist.extDat := by decide +kernel
@@ -70,6 +78,14 @@ theorem tie_requestIDLenSafe : Extracted.Hist.requestIDLenSafe = Canon.Hist.requ
 #print axioms tie_h_hist_OpenOrCreateFile
 #print axioms tie_h_hist_openFile
 #print axioms tie_h_hist_createFile
+#print axioms tie_h_fcache_Cache_LoadLatest
+#print axioms tie_h_fcache_Cache_IsStale
+#print axioms tie_h_fcache_Cache_Store
+#print axioms tie_h_fcache_Cache_Entry
+#print axioms tie_h_fcache_Cache_Invalidate
+#print axioms tie_h_fcache_Cache_Load
+#print axioms tie_h_fcache_Cache_evict
+#print axioms tie_h_fcache__newEntry
 #print axioms tie_dateFormat
 #print axioms tie_dateTimeFormat
 #print axioms tie_extDat
